@@ -189,12 +189,27 @@ FORBIDDEN = re.compile(r'\b(Admitted|admit|Axiom|Axioms|Parameter|Parameters|Con
 
 
 def strip_coq_comments(text):
+    """remove (nested) comments; string literals are respected both outside comments (a "(*" in a string opens
+    nothing) and inside them (Coq lexes strings inside comments: a "*)" in a string closes nothing)"""
     out = []
     depth = 0
     i = 0
     n = len(text)
+    instr = False
     while i < n:
-        if text.startswith('(*', i):
+        c = text[i]
+        if instr:
+            if depth == 0:
+                out.append(c)
+            if c == '"':
+                instr = False
+            i += 1
+        elif c == '"':
+            instr = True
+            if depth == 0:
+                out.append(c)
+            i += 1
+        elif text.startswith('(*', i):
             depth += 1
             i += 2
         elif text.startswith('*)', i) and depth > 0:
@@ -202,7 +217,7 @@ def strip_coq_comments(text):
             i += 2
         else:
             if depth == 0:
-                out.append(text[i])
+                out.append(c)
             i += 1
     return ''.join(out)
 
@@ -291,7 +306,7 @@ def coq_properties(pid, timeout=600):
     for n, b in res['theorems']:
         if b != 'closed':
             for ax in b:
-                if ax.split('.')[-1] not in STD_AXIOMS_OK:
+                if ax.split('.')[-1] not in STD_AXIOMS_OK or ax.startswith('HexVerif.'):
                     res['ok'] = False
                     res['log'] += '\n[theorem %s depends on non-standard axiom %s]' % (n, ax)
     return res
@@ -446,6 +461,7 @@ class Check:
         cov = self.cov
         if not cov['samples']:
             cov['samples'] = ['(no sample recorded)']
+        cov['broken_obligations_or_ties'] = [b[:300] for b in self.broken]
         ev = {'property_id': self.pid, 'tier': self.tier, 'seed': self.seed, 'level': self.level,
               'coverage': cov, 'assumptions': self.assumptions, 'wall_s': round(time.time() - self.t0, 2),
               'violations': len(self.violations), 'known_findings_reported': self.known}
